@@ -711,6 +711,8 @@ class Adapter:
             out["vlog"] = r["vlog"]
         if getattr(self, "focus", None) == "C15" and r["out"] == "ValidationError" and (
             ev["op"] in ("SetAttr", "SetItem", "SetDictItem", "Ctor", "Load") or (ev["op"] == "COp" and ev["o"]["m"] in ("append", "extend", "iadd", "item_set"))
+            # (one entry of a typed map: the path is the map's path and the key)
+            or (ev["op"] == "COp" and ev["o"]["m"] in ("setitem", "setdefault") and "k" in ev["o"])
         ):
             # the reference path the error names (C15 compares it with the specification's)
             out["errpath"] = r.get("errpath") or ""
